@@ -255,3 +255,15 @@ STATIC = [
     census.sites("bulk tasks_remaining accesses", [BULK], r"\btasks_remaining\b", 2),
     census.sites("bulk exception_thrown accesses", [BULK], r"\bexception_thrown\b", 3),
 ]
+
+
+# ---- C17 units reused (added after seeded change C11-4 was missed): "f once per index" rests on contiguous_index_queue handing out
+# ---- every chunk index at most once under concurrent pops from both ends; these are the C17 units of the same name, run here too
+_c17 = {"__name__": "c17_reuse"}
+exec(compile(open("/verif/specs/C17/spec.py").read(), "/verif/specs/C17/spec.py", "exec"), _c17)
+for _u in _c17["UNITS"]:
+    if _u.name.startswith("ciq.") and not _u.name.endswith(".i32"):
+        _u.name = "c17." + _u.name
+        _u.template = "../C17/" + _u.template
+        UNITS.append(_u)
+META["trusted_base"] = list(META.get("trusted_base", [])) + ["units c17.* are the C17 units of the same name (specs/C17/ciq.c) with their trusted base"]
